@@ -29,6 +29,8 @@ LAYOUTS = {
     "L1": dict(files={"a": "a.txt", "b": "s/b.txt"}, dirs={"s": "s"}, dirof={"a": ".", "b": "s"}),
     "L2": dict(files={"a": "c/a.txt", "b": "s/b.txt"}, dirs={"c": "c", "s": "s"}, dirof={"a": "c", "b": "s"}),
     # five files, one zip each (folder of zips with several unzip workers)
+    # a raw folder whose data files happen to be called *.ZIP (upper case): a plain folder for the library
+    "LZ": dict(files={"a": "a.ZIP", "b": "b.ZIP", "c": "c.ZIP"}, dirs={}, dirof={"a": ".", "b": ".", "c": "."}),
     # five flat files (kappadata.copying.create_zips_folder only accepts files)
     "L5f": dict(files={"a": "a.txt", "b": "b.txt", "c": "c.txt", "d": "d.txt", "e": "e.txt"}, dirs={},
                 dirof={"a": ".", "b": ".", "c": ".", "d": ".", "e": "."}),
@@ -51,6 +53,8 @@ def scenarios(tier):
     for nw in ((0, 2, 3) if tier == "quick" else (0, 1, 2, 3, 4)):
         res.append(dict(func="folder", fmt="zips", rel=None, init="absent", order="startfirst", layout="L5", nw=nw,
                         depth=(1 if nw <= 1 else 0)))
+    # raw folder with upper-case .ZIP file names (classified and copied as a plain folder)
+    res.append(dict(func="folder", fmt="raw", rel=None, init="absent", order="startfirst", layout="LZ", nw=0, depth=1))
     # round trip through the library's own zip creation
     for func, layout in (("folder", "L5f"), ("imagefolder", "L2")):
         for nw in ((0,) if tier == "quick" else (0, 2)):
@@ -59,7 +63,7 @@ def scenarios(tier):
     if tier == "quick":
         keep = []
         for s in res:
-            if s["layout"] in ("L5", "L5f") or s.get("via"):
+            if s["layout"] in ("L5", "L5f", "LZ") or s.get("via"):
                 keep.append(s)
                 continue
             if s["init"] != "absent":
